@@ -126,6 +126,16 @@ func shrinkInput(in *Input, fails func(*Input) bool, decide func(*Input) []int, 
 				progress = true
 			}
 		}
+		for i := range cur.SFaults {
+			i := i
+			if cur.SFaults[i].Len > 1 {
+				if try(func(c *Input) bool { c.SFaults[i].Len = 0; return true }) {
+					progress = true
+				} else {
+					try(func(c *Input) bool { c.SFaults[i].Len = (c.SFaults[i].Len + 1) / 2; return c.SFaults[i].Len > 1 })
+				}
+			}
+		}
 		for i := len(cur.SFaults) - 1; i >= 0; i-- {
 			i := i
 			if try(func(c *Input) bool {
